@@ -70,6 +70,17 @@ func genC01(seed uint64, tier string) Scenario {
 		}
 		s.Clients = append(s.Clients, cs)
 	}
+	// Shutdown in the middle of the traffic: accepted connections are served to their end
+	if s.Shutdown && g.Pct(20) {
+		n := 0
+		for i := range s.Clients {
+			s.Clients[i].StartUs = 0
+			n += len(ModelConn(s.Service, s.Clients[i].Frames, 0, s.Scripts).Dispatch)
+		}
+		if n > 0 {
+			s.ShutdownAfterEnters = 1 + g.IntN(n)
+		}
+	}
 	// a service with an idle timeout: an anchor connection is open from the start
 	// over several expiries of the accept deadline; the others connect in between
 	// (the service has to be serving: a connection is open) and are served as ever
